@@ -37,7 +37,7 @@ inductive WKind (s s' : St) (w w' : Worker) : Prop
   | bfSet (hpc : w.pc = .bfSet) (hpc' : w'.pc = .get) (hh : w'.held = w.held) (hfl : w'.full = w.full)
       (hbf : w'.bf = true) (hwq : s'.workQ = s.workQ) (hrq : s'.resQ = s.resQ) (hpq : s'.replQ = s.replQ)
       (hlk : s'.lock = s.lock)
-  | getNone (hpc : w.pc = .get) (hpc' : w'.pc = .exited) (hh : w'.held = none) (hfl : w'.full = w.full)
+  | getNone (hpc : w.pc = .get) (hpc' : w'.pc = .ending) (hh : w'.held = none) (hfl : w'.full = w.full)
       (hbf : w'.bf = w.bf) (hwq : s.workQ = none :: s'.workQ) (hrq : s'.resQ = s.resQ) (hpq : s'.replQ = s.replQ)
       (hlk : s'.lock = s.lock)
   | getSome (i : Nat) (hpc : w.pc = .get) (hpc' : w'.pc = .lockAcq) (hh : w'.held = some i) (hfl : w'.full = w.full)
@@ -63,14 +63,11 @@ inductive WKind (s s' : St) (w w' : Worker) : Prop
       (hpc' : w'.pc = .get ∨ (w'.pc = .retire ∧ s.cfg.factory = true)) (hh : w'.held = none)
       (hfl : w'.full = false) (hbf : w'.bf = w.bf) (hcap : capFull s.cfg.resCap s.resQ = false)
       (hwq : s'.workQ = s.workQ) (hrq : s'.resQ = s.resQ ++ [some i]) (hpq : s'.replQ = s.replQ) (hlk : s'.lock = s.lock)
-  | retire (hpc : w.pc = .retire) (hpc' : w'.pc = .exited) (hh : w'.held = none) (hfl : w'.full = w.full)
+  -- the wid is posted, `end()` is still to run
+  | retireT (hpc : w.pc = .retire) (hpc' : w'.pc = .ending) (hh : w'.held = none) (hfl : w'.full = w.full)
       (hbf : w'.bf = w.bf) (hwq : s'.workQ = s.workQ) (hrq : s'.resQ = s.resQ) (hpq : s'.replQ = s.replQ ++ [some w.wid])
       (hlk : s'.lock = s.lock)
-  -- `Cfg.joinTimeout`: the wid is posted, `end()` is still to run
-  | retireT (hpc : w.pc = .retire) (hpc' : w'.pc = .ending) (hh : w'.held = w.held) (hfl : w'.full = w.full)
-      (hbf : w'.bf = w.bf) (hwq : s'.workQ = s.workQ) (hrq : s'.resQ = s.resQ) (hpq : s'.replQ = s.replQ ++ [some w.wid])
-      (hlk : s'.lock = s.lock)
-  -- `Cfg.joinTimeout`: `end()` and the exit of a retired worker
+  -- `end()` and the exit of a worker that has taken a stop order / posted its wid
   | ending (hpc : w.pc = .ending) (hpc' : w'.pc = .exited) (hh : w'.held = none) (hfl : w'.full = w.full)
       (hbf : w'.bf = w.bf) (hwq : s'.workQ = s.workQ) (hrq : s'.resQ = s.resQ) (hpq : s'.replQ = s.replQ)
       (hlk : s'.lock = s.lock)
@@ -94,10 +91,10 @@ theorem WSame_refl (s : St) : WSame s s :=
 
 theorem workerLoopTop_cases (f : Bool) (w : Worker) :
     ((workerLoopTop f w).pc = .get ∨ ((workerLoopTop f w).pc = .retire ∧ f = true) ∨
-      ((workerLoopTop f w).pc = .exited ∧ f = false ∧ w.quota = some 0)) ∧
-    ((workerLoopTop f w).pc ≠ .exited → (workerLoopTop f w).held = w.held) ∧
+      ((workerLoopTop f w).pc = .ending ∧ f = false ∧ w.quota = some 0)) ∧
+    ((workerLoopTop f w).pc ≠ .ending → (workerLoopTop f w).held = w.held) ∧
     (workerLoopTop f w).full = w.full ∧ (workerLoopTop f w).bf = w.bf ∧ (workerLoopTop f w).wid = w.wid := by
-  unfold workerLoopTop workerExit
+  unfold workerLoopTop workerEnding
   split
   · rename_i hq
     cases f <;> simp [hq]
@@ -211,9 +208,8 @@ theorem stepW_cases {s s' : St} {wid : Nat} (hf : NoFaults s.cfg) (hwc : WellCfg
         exact ⟨w, _, WStep_mk hg h5 (by constructor <;> rfl) rfl
           (.putBlock i hpc hheld h1 h2 h3 h4 (by simpa using hcap) rfl rfl rfl rfl)⟩
   case retire =>
-    split at h <;> simp only [Option.some.injEq] at h <;> subst h
-    · exact ⟨w, _, WStep_mk hg rfl (by constructor <;> rfl) rfl (.retireT hpc rfl rfl rfl rfl rfl rfl (by rw [hwid]; rfl) rfl)⟩
-    · exact ⟨w, _, WStep_mk hg rfl (by constructor <;> rfl) rfl (.retire hpc rfl rfl rfl rfl rfl rfl (by rw [hwid]; rfl) rfl)⟩
+    simp only [Option.some.injEq] at h; subst h
+    exact ⟨w, _, WStep_mk hg rfl (by constructor <;> rfl) rfl (.retireT hpc rfl rfl rfl rfl rfl rfl (by rw [hwid]; rfl) rfl)⟩
   case ending =>
     simp only [Option.some.injEq] at h; subst h
     exact ⟨w, _, WStep_mk hg rfl (WSame_refl s) rfl (.ending hpc rfl rfl rfl rfl rfl rfl rfl rfl)⟩
